@@ -19,6 +19,8 @@ import Restful.Lemmas.OrderJsr
 import Restful.Lemmas.C03Holds
 import Restful.Lemmas.StateShape
 import Restful.Lemmas.Translated
+import Restful.Lemmas.RouteUnique
+import Restful.Lemmas.Classify
 namespace Restful
 namespace Props
 variable (E : ReEnv)
@@ -214,6 +216,123 @@ theorem C03_holds_jsr (cfg : Config) (hwf : cfg.wfTemplates = true) (hk : cfg.ro
   rw [hk]
   exact Restful.c03Holds_jsr E cfg hwf hk req
 
+/-! ### the witness of the predicate is the route that ran
+
+`Spec.c03Holds` names the route by its two ids.  On a table whose ids identify (`Spec.idsDistinct`,
+reported by the driver inside `WF`) exactly one declaration carries them: the predicate is its
+clause (`Spec.c03At`: not beaten at route level, not beaten at root level) evaluated at THAT
+declaration, and for the model's outcome that declaration is the route object the router returned
+(`RouteRan`).  Without the hypothesis a namesake can satisfy it (`C03_ids_witness`). -/
+
+/-- both routers in one statement -/
+theorem C03_holds (cfg : Config) (hwf : cfg.wfTemplates = true) (req : Req) :
+    Spec.c03Holds E cfg req (route E cfg req) = true := by
+  cases hk : cfg.router with
+  | curly => exact C03_holds_curly E cfg hwf hk req
+  | jsr => exact C03_holds_jsr E cfg hwf hk req
+
+/-- the predicate, evaluated on an observation `.selected s r ps`, is its clause evaluated at THE
+    declaration the ids stand for; false when there is none -/
+theorem C03_predicate_at (cfg : Config) (hids : Spec.idsDistinct cfg = true) (req : Req) (s r : Nat) (ps : Params) :
+    Spec.c03Holds E cfg req (.selected s r ps) =
+      (match Spec.routeOfIds cfg s r with
+       | some (svc, rt) => Spec.c03At E cfg req svc rt
+       | none => false) := by
+  rw [Spec.c03Holds_selected, Spec.anyIds_eq hids]
+  cases Spec.routeOfIds cfg s r with
+  | none => rfl
+  | some p => rfl
+
+/-- … in particular no OTHER declaration can satisfy the predicate in the place of the one whose
+    function was observed to run -/
+theorem C03_predicate_unique (cfg : Config) (hids : Spec.idsDistinct cfg = true) (req : Req)
+    (svc : Service) (hsvc : svc ∈ cfg.services) (rt : Route) (hrt : rt ∈ svc.built) (ps : Params) :
+    Spec.c03Holds E cfg req (.selected svc.id rt.id ps) = Spec.c03At E cfg req svc rt := by
+  rw [Spec.c03Holds_selected, Spec.anyIds_of_mem hids _ hsvc hrt]
+
+/-- **C03 with a unique witness** (both routers): when the model selects `(s, r)`, exactly one
+    declaration has these ids, it is the object the router returned, and IT is not beaten: no
+    candidate route of its WebService is more specific, no claiming root is more specific than its
+    WebService's root (CurlyRouter) / no matching literal root has more literal characters
+    (RouterJSR311) -/
+theorem C03_holds_unique (cfg : Config) (hwf : cfg.wfTemplates = true) (hids : Spec.idsDistinct cfg = true)
+    (req : Req) (s r : Nat) (ps : Params) (h : route E cfg req = .selected s r ps) :
+    ∃ svc ∈ cfg.services, ∃ rt ∈ svc.built, RouteRan E cfg req svc rt ∧ svc.id = s ∧ rt.id = r ∧
+      (∀ svc' ∈ cfg.services, svc'.id = s → svc' = svc) ∧
+      (∀ svc' ∈ cfg.services, ∀ rt' ∈ svc'.built, svc'.id = s → rt'.id = r → rt' = rt) ∧
+      (cfg.router = .curly → Spec.curlyRouteOK E svc rt req = true ∧ Spec.curlyRootOK E cfg svc req = true) ∧
+      (cfg.router = .jsr → Spec.jsrRouteOK E svc rt req = true ∧ Spec.jsrRootOK E cfg svc req = true) := by
+  obtain ⟨svc, hsvc, rt, hrt, hran, hs, hr, _, hof, hu1, hu2⟩ := route_selected_unique E hids h
+  refine ⟨svc, hsvc, rt, hrt, hran, hs, hr, hu1, hu2, ?_⟩
+  have hp := C03_holds E cfg hwf req
+  rw [h, C03_predicate_at E cfg hids, hof] at hp
+  simp only [Spec.c03At] at hp
+  constructor
+  · intro hk
+    rw [hk] at hp
+    simpa using hp
+  · intro hk
+    rw [hk] at hp
+    simpa using hp
+
+/-! ### order independence without panics
+
+`Spec.sameOutcome (.panic _) (.panic _)` is true: the order theorems above do not exclude that both
+registrations panic.  On a table in the grammar (`wfTemplates`, and the root of a route-less service
+reads: `rootsRead`, the hypotheses of `C02_total`) neither side panics, so "the same outcome" is a
+statement about selected routes and error statuses only; and on a table whose ids identify, "the
+same ids" is "the same route object" (`C03_order_same_route`). -/
+
+/-- the three ways two panic-free outcomes can be the same for a client -/
+def SameRouted (a b : Outcome) : Prop :=
+  (∃ s r ps, a = .selected s r ps ∧ b = .selected s r ps) ∨
+  (∃ c, a = .error c none ∧ b = .error c none) ∨
+  (∃ c al al', a = .error c (some al) ∧ b = .error c (some al') ∧ ∀ m, m ∈ al ↔ m ∈ al')
+
+/-- CurlyRouter, registration order, no panic on either side (needs `scoresSeparate`: F05, as
+    `C03_curly_order_partial`) -/
+theorem C03_curly_order_nopanic_partial (cfg cfg' : Config) (hk : cfg.router = .curly) (hperm : Spec.CfgPerm cfg cfg')
+    (hwf : cfg.wfTemplates = true) (hroots : Curly.rootsRead cfg = true)
+    (hd : Spec.distinctMethodPathB cfg = true) (req : Req) (hs : Spec.scoresSeparateB cfg req = true) :
+    (∀ w, route E cfg req ≠ .panic w) ∧ (∀ w, route E cfg' req ≠ .panic w) ∧
+      SameRouted (route E cfg req) (route E cfg' req) := by
+  have hnp := Restful.C02_total E cfg hwf (fun hj => by rw [hk] at hj; cases hj) (fun _ => hroots) req
+  have hso := C03_curly_order_partial E cfg cfg' hk hperm hd req hs
+  exact ⟨hnp, Spec.sameOutcome_not_panic_right hso hnp, Spec.sameOutcome_cases hso hnp⟩
+
+/-- the same under separation of the CLAIMED scores only (`C03_curly_order_claimed_partial`) -/
+theorem C03_curly_order_claimed_nopanic_partial (cfg cfg' : Config) (hk : cfg.router = .curly)
+    (hperm : Spec.CfgPerm cfg cfg') (hwf : cfg.wfTemplates = true) (hroots : Curly.rootsRead cfg = true)
+    (hd : Spec.distinctMethodPathB cfg = true) (req : Req) (hs : Curly.ScoresSeparateE E cfg req) :
+    (∀ w, route E cfg req ≠ .panic w) ∧ (∀ w, route E cfg' req ≠ .panic w) ∧
+      SameRouted (route E cfg req) (route E cfg' req) := by
+  have hnp := Restful.C02_total E cfg hwf (fun hj => by rw [hk] at hj; cases hj) (fun _ => hroots) req
+  have hso := C03_curly_order_claimed_partial E cfg cfg' hk hperm hd req hs
+  exact ⟨hnp, Spec.sameOutcome_not_panic_right hso hnp, Spec.sameOutcome_cases hso hnp⟩
+
+/-- RouterJSR311 with literal, pairwise different root paths: registration order does not matter
+    and neither side panics (full statement: only the property's own exclusions and the grammar) -/
+theorem C03_jsr_order_nopanic (cfg cfg' : Config) (hk : cfg.router = .jsr) (hperm : Spec.CfgPerm cfg cfg')
+    (hwf : cfg.wfTemplates = true) (hroots : Jsr.rootsRead cfg = true)
+    (hd : Spec.distinctMethodPathB cfg = true) (req : Req)
+    (hlit : ∀ s ∈ cfg.services, ∀ ex, Jsr.compile s.rootPath = some ex → ∀ t ∈ ex.toks, ∃ l, t = .lit l)
+    (hdist : cfg.services.Pairwise (fun a b => ∀ exa exb, Jsr.compile a.rootPath = some exa →
+      Jsr.compile b.rootPath = some exb → exa.toks ≠ exb.toks)) :
+    (∀ w, route E cfg req ≠ .panic w) ∧ (∀ w, route E cfg' req ≠ .panic w) ∧
+      SameRouted (route E cfg req) (route E cfg' req) := by
+  have hnp := Restful.C02_total E cfg hwf (fun _ => hroots) (fun hc => by rw [hk] at hc; cases hc) req
+  have hso := C03_jsr_order E cfg cfg' hk hperm hd req hlit hdist
+  exact ⟨hnp, Spec.sameOutcome_not_panic_right hso hnp, Spec.sameOutcome_cases hso hnp⟩
+
+/-- on a table whose ids identify, two registrations that select the same pair of ids run the same
+    route OBJECT (either router; `CfgPerm` keeps ids, so `idsDistinct` need only be asked of one side) -/
+theorem C03_order_same_route (cfg cfg' : Config) (hperm : Spec.CfgPerm cfg cfg') (hids : Spec.idsDistinct cfg = true)
+    (req : Req) (s r : Nat) (ps ps' : Params)
+    (h : route E cfg req = .selected s r ps) (h' : route E cfg' req = .selected s r ps') :
+    ∃ svc ∈ cfg.services, ∃ svc' ∈ cfg'.services, ∃ rt, rt ∈ svc.built ∧ rt ∈ svc'.built ∧ svc.id = s ∧ svc'.id = s ∧
+      rt.id = r ∧ RouteRan E cfg req svc rt ∧ RouteRan E cfg' req svc' rt :=
+  route_same_object_of_perm E hperm hids h h'
+
 /-- non-vacuity (CurlyRouter): `/users` (GET /{id}, GET /me, POST /{id}) and `/{tenant}` (GET /{thing}),
     request GET /users/me.  The table is well formed; BOTH roots claim the URL and the literal one is
     `rootMoreSpecific`; in `/users` TWO routes are candidates (`/{id}` and `/me`); the model selects
@@ -402,10 +521,58 @@ example : C03JsrExample.cfg ≠ C03JsrExample.cfg' ∧
     route E0 C03JsrExample.cfg' C03JsrExample.req = .selected 2 21 [] := by
   decide
 
+/-- `C03_holds_unique`, `C03_predicate_at` on these instances (ids identify, templates read, a route
+    function runs) -/
+example : Spec.idsDistinct C03Example.cfg = true ∧ Spec.idsDistinct C03JsrExample.cfg = true := by decide
+example := C03_holds_unique E0 C03Example.cfg (by decide) (by decide) C03Example.req 1 11 [] (by decide)
+example := C03_holds_unique E0 C03JsrExample.cfg (by decide) (by decide) C03JsrExample.req 2 21 [] (by decide)
+example : Spec.c03Holds E0 C03Example.cfg C03Example.req (.selected 1 10 [("id".toList, "me".toList)]) = false := by
+  rw [C03_predicate_at E0 C03Example.cfg (by decide)]
+  decide
+
+/-- `C03_curly_order_nopanic_partial`, `C03_curly_order_claimed_nopanic_partial`, `C03_jsr_order_nopanic`,
+    `C03_order_same_route` with all their hypotheses (the root hypotheses hold: every service has routes) -/
+example : Curly.rootsRead C03Example.cfg = true ∧ Jsr.rootsRead C03JsrExample.cfg = true := by decide
+example := C03_curly_order_nopanic_partial E0 C03Example.cfg C03Example.cfg' rfl C03Example.cfgPerm (by decide) (by decide)
+  (by decide) C03Example.req (by decide)
+example := C03_curly_order_claimed_nopanic_partial E0 C03Example.cfg C03Example.cfg' rfl C03Example.cfgPerm (by decide)
+  (by decide) (by decide) C03Example.req (Curly.scoresSeparateE_of E0 C03Example.separate)
+example := C03_jsr_order_nopanic E0 C03JsrExample.cfg C03JsrExample.cfg' rfl C03JsrExample.cfgPerm (by decide) (by decide)
+  (by decide) C03JsrExample.req C03JsrExample.literalRoots rootsDiffer
+example := C03_order_same_route E0 C03Example.cfg C03Example.cfg' C03Example.cfgPerm (by decide) C03Example.req 1 11 [] []
+  (by decide) (by decide)
+
+/-- `SameRouted` is not trivially true, and excludes what `Spec.sameOutcome` admits: two panics -/
+example : ¬ SameRouted (.panic "a") (.panic "a") ∧ Spec.sameOutcome (.panic "a") (.panic "a") ∧
+    ¬ SameRouted (.selected 1 11 []) (.selected 1 10 []) ∧ ¬ SameRouted (.selected 1 11 []) (.error 404 none) := by
+  refine ⟨?_, trivial, ?_, ?_⟩ <;>
+    (rintro (⟨_, _, _, h1, h2⟩ | ⟨_, h1, h2⟩ | ⟨_, _, _, h1, h2, _⟩) <;> cases h1 <;> cases h2)
+
+/-- two routes of `/users` share id 10: `/{id}` and `/me` -/
+def cfgDup : Config := { router := .curly, services :=
+  [{ id := 1, root := "/users".toList, routes := [C03Example.rGet 10 "/{id}", C03Example.rGet 10 "/me"] }] }
+
 end C03Audit
+
+/-- without `idsDistinct` the predicate can be satisfied by a namesake: for GET /users/me the
+    observation "function 10 of service 1 ran" satisfies the predicate through the literal route
+    `/me` (id 10), while the first declaration with these ids, `/{id}`, is beaten by it -/
+theorem C03_ids_witness :
+    C03Audit.cfgDup.wfTemplates = true ∧ Spec.idsDistinct C03Audit.cfgDup = false ∧
+    (Spec.routeOfIds C03Audit.cfgDup 1 10).map (·.2.path) = some "/users/{id}".toList ∧
+    Spec.c03Holds C03Example.E0 C03Audit.cfgDup C03Example.req (.selected 1 10 [("id".toList, "me".toList)]) = true ∧
+    (Spec.routeOfIds C03Audit.cfgDup 1 10).map (fun p =>
+      Spec.c03At C03Example.E0 C03Audit.cfgDup C03Example.req p.1 p.2) = some false := by
+  decide
 
 /-! The frame condition (Lemmas/StateShape.lean): the code has exactly the state this property's model
     accounts for — no further package-level variable, struct type or field; constants as modelled. -/
+-- also: Restful.route_selected_ran
+-- also: Restful.route_selected_unique
+-- also: Restful.route_same_object_of_perm
+-- also: Restful.Spec.anyIds_eq
+-- also: Restful.Spec.sameOutcome_cases
+-- also: Restful.Spec.sameOutcome_not_panic_right
 -- also: Restful.StateShape.globals_shape
 -- also: Restful.StateShape.consts_shape
 -- also: Restful.StateShape.routing_shape
